@@ -214,3 +214,12 @@ impl<KT: DbMapKeyType> IntoIterator for &mut FileDbMap<KT> {
         DbXxxIterMut::new(self.0.clone()).unwrap()
     }
 }
+
+/// verification hook, compiled only with `--cfg abyssiniandb_verif`:
+/// identity of the buffered instance behind this handle (handles of one map share it).
+#[cfg(abyssiniandb_verif)]
+impl<KT: DbMapKeyType> FileDbMap<KT> {
+    pub fn verif_instance_id(&self) -> usize {
+        Rc::as_ptr(&self.0) as *const () as usize
+    }
+}
